@@ -231,7 +231,11 @@ impl<'a, 'b: 'a> Walk<'a, 'b> {
 /// Returns the list of nodes whose parent query is not the syntactic parent.
 fn check_doc(text: &str) -> Result<Vec<Bad>, String> {
   let cddl = cddl::parser::cddl_from_str(text, false)?;
-  let pv = ParentVisitor::new(&cddl).map_err(|e| format!("ParentVisitor::new failed: {}", e))?;
+  // C20: "for every accepted document, building the parent index succeeds"
+  let pv = match ParentVisitor::new(&cddl) {
+    Ok(pv) => pv,
+    Err(e) => return Ok(vec![Bad { what: format!("building the parent index fails on this accepted document: {}", e) }]),
+  };
   let mut w = Walk { pv: &pv, bad: vec![], checked: 0 };
   w.doc(&cddl);
   Ok(w.bad)
@@ -277,6 +281,8 @@ const TYPES: &[&str] = &[
   "uint .size 4", "2..10", "bstr .cbor { issuer: tstr, serial: uint }", "[ * ( tstr, int ) ]", "[ + float ]",
   "{ ? k: int, * tstr => any }", "{ $$ext, ext: int }", "{ tag: $label }", "#6.32(tstr)", "( int / tstr )", "&( x: 1, y: 2 )",
   "[ 2*3 bool ]", "{ (a1: int // b1: tstr) }", "~time",
+  // operators whose target / controller is a container, a tag or a parenthesised type
+  "[ * float ] .size 2", "{ n: tstr } .within any", "#6.1(uint) .ne 0", "( 1 / 2 ) .default 1", "0 ... 5",
 ];
 
 pub fn find(args: &[String]) -> i32 {
